@@ -67,7 +67,10 @@ def generate(rng, n, tier, stats):
             stats['history_op']['init'] += 1
         for _ in range(rng.randint(1, maxlen)):
             kinds = ['set_new', 'set_new', 'set_replace', 'reject', 'reject', 'reject', 'del', 'rename_axis', 'var_rename_axis', 'set_dims',
-                     'rename_axes', 'set_label', 'set_axis', 'replace_axis', 'rename_key']
+                     'rename_axes', 'set_label', 'set_axis', 'replace_axis', 'set_axis', 'replace_axis', 'rename_key']
+            # an axis is named by its name or by its POSITION IN THE DATASET (which is not its position in a variable that lacks an
+            # earlier dimension or lists its dimensions in another order): positions other than 0 are preferred
+            byname = lambda i: rng.random() < (0.3 if i > 0 else 0.5)
             k = rng.choice(kinds)
             have = list(ds.keys()); dims = list(ds.dims)
             op = None
@@ -88,7 +91,7 @@ def generate(rng, n, tier, stats):
                 op = ['del', rng.choice(have + (['nokey'] if rng.random() < 0.1 else []))]
             elif k == 'rename_axis':
                 if not dims: continue
-                i = rng.randrange(len(dims)); op = ['rename_axis', dims[i] if rng.random() < 0.5 else i, next(fresh)]
+                i = rng.randrange(len(dims)); op = ['rename_axis', dims[i] if byname(i) else i, next(fresh)]
             elif k == 'var_rename_axis':
                 cands = [x for x in have if dict.__getitem__(ds, x).ndim > 0]
                 if not cands: continue
@@ -113,19 +116,19 @@ def generate(rng, n, tier, stats):
                 if ax.size == 0: continue
                 j = rng.randrange(ax.size); cur = lab_json(ax.values[j])
                 new = rng.choice([cur + 100, cur + 0.5]) if not isinstance(cur, str) else rng.choice([cur + 'q', 5])
-                op = ['set_label', dims[i] if rng.random() < 0.5 else i, j, new]
+                op = ['set_label', dims[i] if byname(i) else i, j, new]
             elif k == 'set_axis':
                 if not dims: continue
                 i = rng.randrange(len(dims)); ax = ds.axes[i]
                 kk = rng.choice(['i', 'f', 'O']); labs = rand_labels(rng, ax.size, kk, 'shuf') if ax.size <= 6 else None
                 if labs is None: continue
-                op = ['set_axis', dims[i] if rng.random() < 0.5 else i, labs, kk, next(fresh) if rng.random() < 0.4 else None]
+                op = ['set_axis', dims[i] if byname(i) else i, labs, kk, next(fresh) if rng.random() < 0.4 else None]
             elif k == 'replace_axis':
                 if not dims: continue
                 i = rng.randrange(len(dims)); ax = ds.axes[i]
                 kk = rng.choice(['i', 'f', 'O']); n_ = ax.size if rng.random() < 0.9 else ax.size + 1
                 if n_ > 6: continue
-                op = ['replace_axis', dims[i] if rng.random() < 0.5 else i, {'name': dims[i], 'labels': rand_labels(rng, n_, kk, 'shuf'), 'kind': kk}]
+                op = ['replace_axis', dims[i] if byname(i) else i, {'name': dims[i], 'labels': rand_labels(rng, n_, kk, 'shuf'), 'kind': kk}]
             else:
                 if not have: continue
                 old = rng.choice(have); op = ['rename_key', old, rng.choice([x for x in keys_pool + ['z1', 'z2'] if x not in have] + [old])]
